@@ -316,14 +316,48 @@ class CountingStream:
         return n
 
 
-def run_request(body: bytes, content_type: str, *, mcl=None, maxmem=None, maxparts=None, has_cl=True, term=False) -> dict:
+class Pep3333Stream:
+    """wsgi.input with only what PEP 3333 requires (read/readline/readlines/__iter__, no readinto),
+    as gunicorn's and mod_wsgi's input objects are; counts the bytes handed out."""
+
+    def __init__(self, data: bytes, short: int = 0):
+        self._b = io.BytesIO(data)
+        self.consumed = 0
+        self._short = short
+
+    def read(self, n=-1):
+        if self._short and (n is None or n < 0 or n > self._short):
+            n = self._short if (n is not None and n >= 0) else n
+        out = self._b.read(n)
+        self.consumed += len(out)
+        return out
+
+    def readline(self, n=-1):
+        out = self._b.readline(n)
+        self.consumed += len(out)
+        return out
+
+    def readlines(self, hint=-1):
+        out = self._b.readlines(hint)
+        self.consumed += sum(len(x) for x in out)
+        return out
+
+    def __iter__(self):
+        while True:
+            ln = self.readline()
+            if not ln:
+                return
+            yield ln
+
+
+def run_request(body: bytes, content_type: str, *, mcl=None, maxmem=None, maxparts=None, has_cl=True, term=False, stream_kind="full") -> dict:
     """Request.form / Request.files under the three limits; returns result + bytes consumed from wsgi.input."""
     from werkzeug.exceptions import RequestEntityTooLarge
     from werkzeug.test import EnvironBuilder
     from werkzeug.wrappers import Request
 
     env = EnvironBuilder(method="POST").get_environ()
-    stream = CountingStream(body)
+    stream = CountingStream(body) if stream_kind == "full" else Pep3333Stream(body, short=7 if stream_kind == "short" else 0)
     env["wsgi.input"] = stream
     env["CONTENT_TYPE"] = content_type
     if has_cl:
